@@ -19,6 +19,7 @@
     sdnil,h               Stopped() returned a nil channel        rng  Running() seen closed       cx  Run ctx cancelled
     wce                   the self-close watcher's Close returned an error (logged by the router)
     qs                    quiescence: the goroutine census ran and found no goroutine of the router / handlers / decorators
+    crash                 the (isolated) harness process died: an unrecovered panic in a goroutine of the router
     fin,stuck,left,snap   end: a wait ran into the liveness bound / goroutines left / final settlement
 -/
 namespace Wm.RouterMon
@@ -33,7 +34,7 @@ def knownKinds : List (String × Nat) :=
   [("ahc",1),("ah",2),("ahp",1),("rc",1),("rr",3),("rhc",1),("rhr",2),("sub",1),("em",2),("ea",2),("hs",2),("hg",2),("he",3),
    ("pb",2),("pc",1),("sc",1),("scr",1),("cc",1),("cr",3),("stp",1),("stpr",2),("st",1),("sd",1),("sdnil",1),("rng",0),
    ("cx",0),("go",0),("qs",0),("sube",1),("nst",1),("sgo",0),("rel",0),("wce",0),("fin",3),("kr",2),("ks",2),("kp",2),("kb",2),("kS",0),("kL",0),("kR",0),
-   ("kh",1),("kg",1),("kw",0),("kd",1),("kl",0)]
+   ("kh",1),("kg",1),("kw",0),("kd",1),("kl",0),("crash",0)]
 
 def numOf (f : String) : Nat :=
   match f.toNat? with
@@ -182,6 +183,7 @@ def c06Calls (evs : Array Ev) : String := Id.run do
       if e.s.getD 0 "" != "0" then return "violated:stuck(a_call_did_not_return_within_the_liveness_bound)"
       if e.n1 > 0 then return "violated:router_goroutine_remains"
     if (e.k == "cr" || e.k == "rr") && e.s1 == "panic" then return "violated:close_or_run_panicked"
+    if e.k == "crash" then return "violated:unrecovered_panic_in_a_router_goroutine"
     if e.k == "cc" then
       match firstIdx evs (fun a => a.k == "cr" && a.n0 == e.n0) with
       | none => return "violated:close_call_did_not_return"
@@ -281,6 +283,7 @@ def c10SelfClose (evs : Array Ev) : String := Id.run do
   for e in evs do
     if e.k == "fin" && e.s.getD 0 "" != "0" then return "violated:stuck(a_wait_ran_into_the_liveness_bound)"
     if e.k == "fin" && e.n1 > 0 then return "violated:router_goroutine_remains"
+    if e.k == "crash" then return "violated:unrecovered_panic_in_a_router_goroutine"
     if e.k == "rr" && e.n0 == 0 && e.s1 != "nil" && !anyEv evs (is "sube") then return "violated:run_returned_error"
     if e.k == "rr" && e.n0 != 0 && e.s1 != "err" then return "violated:second_run_did_not_fail"
   if anyEv evs (fun e => e.k == "rc" && e.n0 == 0) then
